@@ -87,7 +87,7 @@ PROPS = {
              "wrong length) in one field of one record. Must-refuse sends must return an error; after each one a marker message is "
              "sent and must be the next thing the peer sees; the same refused set object is re-sent 0..2 times (an application retry) and must be "
              "refused again; accepted messages must equal refipfix's encoding of the supplied values. "
-             "Non-trivial = a refused send followed by an accepted one; distinct by hash of the send classes.",
+             "Non-trivial = a refused send followed by an accepted one; distinct by hash of the send classes. A second exporting process of the same program (own peer, own domain, the template ids every process starts with) sends 20-30 KB messages for the whole batch: what this process transmits must not depend on it.",
              COMMON_ASSUME + [ONE_MSG] + ["an IPv4 address supplied for an ipv6Address element is not judged (net.IP treats it as its ::ffff: form)",
                               "a data set whose template send itself failed is a gray zone and is not generated"],
              "runtime monitor: expected-stream model (concatenation of accepted messages) over bytes captured at a raw peer, marker messages"),
